@@ -22,6 +22,7 @@ type SpecCtx struct {
 	inOld     bool
 	fnName    string // enclosing Go function (for function-typed parameters)
 	fr        *frame // enclosing frame (for atloop)
+	vis       *rangeGhost // visited-set ghost of the range-over-map loop whose invariant is being evaluated
 }
 
 type specErr string
@@ -920,6 +921,13 @@ func (c *SpecCtx) evalCall(e *ECall) Val {
 			return Val{T: fmt.Sprintf("(<= %s %s)", sArr(x.T), c.st.wm), Typ: boolT}
 		}
 		c.fail("allocated of %s", x.Typ)
+	case "visited":
+		// visited(k): in an invariant of a range-over-map loop, key k has been produced by an earlier iteration
+		if c.vis == nil || len(e.Args) != 1 {
+			c.fail("visited(k) is only available in invariants of a range-over-map loop")
+		}
+		k := c.materialize(c.eval(e.Args[0]), c.vis.mt.Key())
+		return Val{T: fmt.Sprintf("(select %s %s)", c.vc.memAtByName(c.st, c.vis.name), k.T), Typ: boolT}
 	case "has":
 		// has(m, k): key k present in map m
 		m := c.eval(e.Args[0])
